@@ -147,6 +147,25 @@ def run_property(pid, tier, seed):
         for od in kr["obligations"]:
             ob = SerialObligation(od, k)
             allobs.append(ob)
+    # bounded stand-ins on the compiled code (cxxvc/native.py): never counted as proved
+    for modname in prop["modules"]:
+        mod = importlib.import_module(modname)
+        for nc in getattr(mod, "NATIVE", []):
+            if pid not in nc.property_ids:
+                continue
+            n = nc()
+            r = n.run(tier)
+            entry = {"function": n.kid, "bound": n.bound_text, "kind": "native bounded enumeration of the real compiled code",
+                     "inputs_checked": r.get("evaluations", 0), "functions": list(n.functions), "build_s": r.get("build_s"),
+                     "run_s": r.get("run_s"), "runs": r.get("runs")}
+            out["bounded"].append(entry)
+            out["native_inputs"] = out.get("native_inputs", 0) + r.get("evaluations", 0)
+            if r["status"] == "error":
+                out["gaps"].append({"kernel": n.kid, "reason": r.get("detail")})
+                print("GAP kernel=%s %s" % (n.kid, (r.get("detail") or "")[:600]))
+            elif r["status"] == "violation":
+                out.setdefault("native_violations", []).append({"kernel": n.kid, "title": n.title, "failing_input": r["failing_input"],
+                                                                "replay_cmd": r["replay_cmd"], "source": n.source})
     for l in lemmas:
         obs = l.obligations()
         for ob in obs:
@@ -269,9 +288,9 @@ def evidence(out, seed):
         # exploration-style keys measured from the run: symbolic paths explored and
         # the distinct non-trivial ones (paths that produced at least one non-trivial obligation)
         paths = sum(f.get("paths", 0) for f in out["functions"])
-        cov["evaluations"] = max(paths, 1)
+        cov["evaluations"] = max(paths + out.get("native_inputs", 0), 1)
         cov["distinct_nontrivial"] = out["obligations"]
-        cov["rule"] = ("evaluations = symbolic paths through the kernels; distinct_nontrivial = distinct named "
+        cov["rule"] = ("evaluations = symbolic paths through the kernels plus inputs run by the native bounded stand-ins; distinct_nontrivial = distinct named "
                        "obligations generated from them (each is a different (kernel, clause) pair)")
     ev = {"property_id": pid, "tier": out["tier"], "seed": seed, "level": level, "coverage": cov,
           "assumptions": prop.get("assumptions", []), "wall_s": out.get("wall_s", 0.0),
@@ -320,6 +339,17 @@ def main(argv=None):
         print("violated obligation: kernel=%s obligation=%s (%s)" % (v["kernel"], v["obligation"], rec["verdict"]))
         vio_paths.append((path, tail))
     out["violations"] = [v for v, _, _ in out["violations"]]
+    for nv in out.get("native_violations", []):
+        d = os.path.join(os.environ.get("CXXVC_REPLAY_DIR", os.path.join(VERIF, "replays")), a.pid)
+        os.makedirs(d, exist_ok=True)
+        path = os.path.join(d, slug(nv["kernel"]) + ".json")
+        with open(path, "w") as fh:
+            json.dump({"property": a.pid, "kernel": nv["kernel"], "obligation": nv["title"], "kind": "bounded-native",
+                       "failing_input": nv["failing_input"], "replay": nv["replay_cmd"], "harness": nv["source"],
+                       "verdict": "violation observed on the real compiled code for this input"}, fh, indent=1)
+        print("violated bounded check: kernel=%s input: %s" % (nv["kernel"], nv["failing_input"]))
+        vio_paths.append((path, ""))
+        out["violations"].append({"kernel": nv["kernel"], "obligation": nv["title"], "failing_input": nv["failing_input"]})
     evidence(out, seed)
     for path, tail in vio_paths:
         print("VIOLATION property=%s replay=%s%s" % (a.pid, path, tail))
